@@ -276,6 +276,37 @@ theorem rot4d_order (a0 a1 a2 a3 a4 a5 : ℝ) (rest : List ℝ) :
   simp only [List.map_cons, List.map_nil, List.reverse_cons, List.reverse_nil, List.nil_append,
     List.cons_append, List.prod_cons, List.prod_nil, mul_one, Matrix.mul_assoc]
 
+/-- in 2-D the main axes are the coordinate axes turned counter-clockwise by the angle -/
+theorem main_axes_2d (a : ℝ) :
+    toV 2 (mainAxes 2 [a] 0) = ![Real.cos a, Real.sin a] ∧
+    toV 2 (mainAxes 2 [a] 1) = ![-Real.sin a, Real.cos a] := by
+  have h := rot2d_ccw a []
+  constructor
+  · rw [show toV 2 (mainAxes 2 [a] 0) = fun k => toM 2 (matrixRotate 2 [a]) k 0 from rfl, h]
+    funext k; fin_cases k <;> simp
+  · rw [show toV 2 (mainAxes 2 [a] 1) = fun k => toM 2 (matrixRotate 2 [a]) k 1 from rfl, h]
+    funext k; fin_cases k <;> simp
+
+/-- in 3-D a pure yaw turns the first two main axes counter-clockwise about `z` and keeps `z` -/
+theorem main_axes_3d_yaw (y : ℝ) :
+    toV 3 (mainAxes 3 [y] 0) = ![Real.cos y, Real.sin y, 0] ∧
+    toV 3 (mainAxes 3 [y] 1) = ![-Real.sin y, Real.cos y, 0] ∧
+    toV 3 (mainAxes 3 [y] 2) = ![0, 0, 1] := by
+  have hpad : matrixRotate 3 [y] = matrixRotate 3 [y, 0, 0] := by
+    simp [matrixRotate, setAngles, noOfAngles]
+  have h := rot3d_entries y 0 0
+  simp only [mainAxes, hpad]
+  refine ⟨?_, ?_, ?_⟩
+  · rw [show toV 3 (Model.Geo.transpose (matrixRotate 3 [y, 0, 0]) 0)
+        = fun k => toM 3 (matrixRotate 3 [y, 0, 0]) k 0 from rfl, h]
+    funext k; fin_cases k <;> simp
+  · rw [show toV 3 (Model.Geo.transpose (matrixRotate 3 [y, 0, 0]) 1)
+        = fun k => toM 3 (matrixRotate 3 [y, 0, 0]) k 1 from rfl, h]
+    funext k; fin_cases k <;> simp
+  · rw [show toV 3 (Model.Geo.transpose (matrixRotate 3 [y, 0, 0]) 2)
+        = fun k => toM 3 (matrixRotate 3 [y, 0, 0]) k 2 from rfl, h]
+    funext k; fin_cases k <;> simp
+
 /-- missing angles count as `0`: no angles at all give the identity, in every dimension -/
 theorem rotate_nil (d : Nat) : toM d (matrixRotate d ([] : List ℝ)) = 1 := by
   rw [rotate_eq_prod]
@@ -296,5 +327,173 @@ theorem rotate_nil (d : Nat) : toM d (matrixRotate d ([] : List ℝ)) = 1 := by
     unfold gM at this
     rw [this, h0, givM_zero]
   exact List.prod_eq_one h
+
+/-! ## padding rules -/
+
+/-- `set_anis`: always `dim - 1` ratios; too few are padded **in front** with `1`, too many are cut
+    at the end. -/
+theorem pad_rules_anis (d : Nat) (an : List ℝ) :
+    (setAnis d an).length = d - 1 ∧
+    (an.length ≤ d - 1 → setAnis d an = List.replicate (d - 1 - an.length) 1 ++ an) ∧
+    (d - 1 ≤ an.length → setAnis d an = an.take (d - 1)) := by
+  refine ⟨length_setAnis d an, fun h => ?_, fun h => ?_⟩
+  · simp only [setAnis]
+    rw [List.take_of_length_le h]
+    split
+    · simp; omega
+    · have : d - 1 - an.length = 0 := by omega
+      simp [this]
+  · simp only [setAnis, List.length_take]
+    rw [if_neg (by omega)]
+
+/-- `set_angles`: always `no_of_angles(dim)` angles; too few are padded **behind** with `0`, too
+    many are cut at the end. -/
+theorem pad_rules_angles (d : Nat) (as : List ℝ) :
+    (setAngles d as).length = noOfAngles d ∧
+    (as.length ≤ noOfAngles d → setAngles d as = as ++ List.replicate (noOfAngles d - as.length) 0) ∧
+    (noOfAngles d ≤ as.length → setAngles d as = as.take (noOfAngles d)) := by
+  refine ⟨length_setAngles d as, fun h => ?_, fun h => ?_⟩
+  · simp only [setAngles]
+    rw [List.take_of_length_le h]; simp
+  · simp only [setAngles, List.length_take]
+    have : noOfAngles d - min (noOfAngles d) as.length = 0 := by omega
+    simp [this]
+
+/-- `set_len_anis` with one length scale keeps the (padded) ratios, provided they are positive -/
+theorem len_scale_single (d : Nat) (hd : 1 ≤ d) (l : ℝ) (anis : List ℝ) (h : ∀ a ∈ anis, 0 < a) :
+    setLenAnis d [l] anis = .ok (l, setAnis d anis) := by
+  have ht : List.take d [l] = [l] := by
+    obtain ⟨e, rfl⟩ : ∃ e, d = e + 1 := ⟨d - 1, by omega⟩
+    simp
+  simp only [setLenAnis, ht, List.length_nil, if_true]
+  rw [if_pos]
+  simp only [List.all_eq_true, decide_eq_true_eq, Nat.cast_zero]
+  exact fun a ha => setAnis_pos h a ha
+
+/-- `set_len_anis` with one length scale per axis: the main length scale is the first entry and the
+    ratios are `len_scale[i] / len_scale[0]`, so `len_scale · anis[i-1] = len_scale[i]`. -/
+theorem len_scale_list (l0 l1 : ℝ) (ls anis : List ℝ) (h0 : 0 < l0) (h : ∀ l ∈ l1 :: ls, 0 < l) :
+    setLenAnis (ls.length + 2) (l0 :: l1 :: ls) anis = .ok (l0, (l1 :: ls).map fun l => l / l0) := by
+  have ht : List.take (ls.length + 2) (l0 :: l1 :: ls) = l0 :: l1 :: ls := by simp
+  have hidx : (idxRange 1 (ls.length + 2)).map (fun i => (padEdge (ls.length + 2) (l0 :: l1 :: ls)
+        ((l0 :: l1 :: ls).getLast?.getD l0))[i]?.getD l0 / l0) = (l1 :: ls).map fun l => l / l0 := by
+    apply List.ext_getElem
+    · simp [idxRange]
+    · intro n h1 h2
+      have hn : n < (l1 :: ls).length := by simpa using h2
+      simp only [idxRange, List.getElem_map, List.getElem_range', padEdge, List.length_cons,
+        Nat.sub_self, List.replicate_zero, List.append_nil, Nat.one_mul]
+      rw [show 1 + n = n + 1 by omega, List.getElem?_cons_succ, List.getElem?_eq_getElem hn]
+      simp
+  simp only [setLenAnis, ht, List.length_cons, Nat.add_one_ne_zero, if_false]
+  rw [hidx, if_pos]
+  simp only [List.all_eq_true, decide_eq_true_eq, Nat.cast_zero, List.mem_map]
+  rintro a ⟨l, hl, rfl⟩
+  exact div_pos (h l hl) h0
+
+example : ∀ l ∈ ([3, 0.5] : List ℝ), 0 < l := by simp; norm_num
+
+/-- a non-positive ratio is rejected (`ValueError`), so the positivity hypothesis of
+    `iso_aniso_inverse` is what a constructed model guarantees -/
+theorem len_scale_rejects (d : Nat) (l : ℝ) (anis : List ℝ) (a : ℝ) (ha : a ∈ setAnis d anis) (hneg : a ≤ 0) :
+    setLenAnis d [l] anis = .error "ValueError" ∨ setLenAnis d [l] anis = .error "IndexError" := by
+  cases d with
+  | zero => right; simp [setLenAnis]
+  | succ e =>
+    left
+    simp only [setLenAnis, List.take_succ_cons, List.take_nil, List.length_nil, if_true]
+    rw [if_neg]
+    simp only [List.all_eq_true, decide_eq_true_eq, Nat.cast_zero, not_forall]
+    exact ⟨a, ha, not_lt.2 hneg⟩
+
+/-! ## the pipelines -/
+
+/-- distances between isometrized positions are the model's isotropic radius of the raw lag:
+    the entries `cov(‖iso x_i − iso x_j‖)` of the kriging system are `cov_spatial(x_i − x_j)`. -/
+theorem pipeline_dist (d : Nat) (angles anis : List ℝ) (x y : Nat → ℝ) :
+    dist d (isometrize d angles anis x) (isometrize d angles anis y)
+      = isoRad d angles anis (fun k => x k - y k) := by
+  have hl := isometrize_linear d angles anis 1 (-1) x y
+  simp only [one_mul, neg_mul, one_smul, neg_smul, ← sub_eq_add_neg] at hl
+  rw [Model.Geo.dist, isoRad, norm2_eq, norm2_eq, hl]
+  rfl
+
+theorem pipeline_cov (f : ℝ → ℝ) (d : Nat) (angles anis : List ℝ) (x y : Nat → ℝ) :
+    f (dist d (isometrize d angles anis x) (isometrize d angles anis y))
+      = covSpatial f d angles anis (fun k => x k - y k) := by
+  rw [pipeline_dist]; rfl
+
+/-- the isotropic, unrotated model (no `anis`, no `angles`) leaves positions unchanged -/
+theorem isometrize_iso_model (d : Nat) (x : Nat → ℝ) :
+    toV d (isometrize d ([] : List ℝ) [] x) = toV d x := by
+  have hs : stretch d ([] : List ℝ) = fun _ => 1 := by
+    funext i
+    have hp := (pad_rules_anis d []).2.1 (Nat.zero_le _)
+    have hi := i.2
+    simp only [stretch, hp, List.append_nil, List.length_nil, Nat.sub_zero]
+    rcases i with ⟨_ | k, hk⟩
+    · simp
+    · have : k < d - 1 := by omega
+      simp [List.getElem?_replicate, this]
+  rw [isometrize, toV_applyMat, (iso_aniso_factor d [] []).1, rotate_nil, hs]
+  simp
+
+/-- **pipeline**: every computation that receives its positions through `pre_pos` (SRF, Krige,
+    CondSRF, vector fields) gives, for the anisotropic rotated model at `xs`, what it gives for the
+    isotropic model at the transformed positions `isometrize xs`. -/
+theorem pipeline {β : Type} {d : Nat} (F : List (Fin d → ℝ) → β) (angles anis : List ℝ) (xs : List (Nat → ℝ)) :
+    F ((prePos d angles anis xs).map (toV d))
+      = F ((prePos d ([] : List ℝ) [] (prePos d angles anis xs)).map (toV d)) := by
+  congr 1
+  simp only [prePos, List.map_map]
+  apply List.map_congr_left
+  intro x _
+  simp only [Function.comp]
+  rw [isometrize_iso_model]
+
+/-- randomization method: the phase of an isotropic mode `k` at the isometrized position is the
+    phase of the transformed mode `Mᵀ k` at the raw position (`M = matrix_isometrize`) -/
+theorem pipeline_modes (d : Nat) (angles anis : List ℝ) (k x : Nat → ℝ) :
+    phase d k (isometrize d angles anis x)
+      = phase d (applyMat d (Model.Geo.transpose (matrixIsometrize d angles anis)) k) x := by
+  rw [phase_eq, phase_eq, isometrize, toV_applyMat, toV_applyMat, toM_transpose,
+    Matrix.dotProduct_mulVec, Matrix.mulVec_transpose]
+
+/-- the model's spatial covariance of a lag `h` is the isotropic model's at the transformed lag -/
+theorem cov_spatial_change_of_coords (f : ℝ → ℝ) (d : Nat) (angles anis : List ℝ) (h : Nat → ℝ) :
+    covSpatial f d angles anis h = covSpatial f d ([] : List ℝ) [] (isometrize d angles anis h) := by
+  simp only [covSpatial, isoRad, norm2_eq, isometrize_iso_model]
+
+/-! ## ang2dir -/
+
+/-- `ang2dir` returns a unit vector of dimension `len(angles) + 1` for every angle vector
+    (spherical coordinates in any dimension; the 2-D/3-D component swap does not matter). -/
+theorem ang2dir_unit (angles v : List ℝ) (h : ang2dir angles = .ok v) :
+    v.length = angles.length + 1 ∧ (v.map fun x => x * x).sum = 1 := by
+  have hsin : (Transc.sin : ℝ → ℝ) = Real.sin := rfl
+  unfold ang2dir at h
+  simp only at h
+  split at h
+  · exact absurd h (by simp)
+  · rw [dirRest_eq, prodL_eq, hsin] at h
+    have hu := sqSum_dir angles
+    have hl := length_dirRest angles
+    split at h
+    · cases hd : dirRest angles with
+      | nil => rw [hd] at hl; simp at hl; omega
+      | cons b t =>
+        rw [hd] at h hu hl
+        simp only [Except.ok.injEq] at h
+        subst h
+        simp only [List.length_cons] at hl ⊢
+        refine ⟨by omega, ?_⟩
+        simp only [List.map_cons, List.sum_cons] at hu ⊢
+        linarith
+    · simp only [Except.ok.injEq] at h
+      subst h
+      exact ⟨by simp [hl], hu⟩
+
+example : ang2dir ([0, 0] : List ℝ) = .ok [0, 0, 1] := by
+  simp [ang2dir, prodL, idxRange, List.range']
 
 end GSV.Props.C12
